@@ -41,6 +41,10 @@ pub struct C14Case {
     pub entry: u8,
     pub n: i32,
     pub prefix: Vec<u8>,
+    /// forbidden-but-catchable signals (index into ILL, FPE, SEGV) registered beforehand through
+    /// an unchecked entry point: the checked ones must keep refusing them
+    #[serde(default)]
+    pub unchecked_prefix: Vec<u8>,
 }
 
 pub fn numbers() -> Vec<i32> {
@@ -60,8 +64,9 @@ pub fn strategy() -> BoxedStrategy<C14Case> {
             1 => proptest::sample::select(vec![4, 8, 9, 11, 19]),
         ],
         vec(0u8..6, 0..5),
+        prop_oneof![3 => Just(vec![]), 2 => vec(0u8..3, 1..3)],
     )
-        .prop_map(|(entry, n, prefix)| C14Case { entry, n, prefix })
+        .prop_map(|(entry, n, prefix, unchecked_prefix)| C14Case { entry, n, prefix, unchecked_prefix })
         .boxed()
 }
 
@@ -153,6 +158,14 @@ fn child(case: &C14Case, fd: i32) {
         let r = unsafe { signal_hook_registry::register(s, move || { COUNTS[i].fetch_add(1, Ordering::SeqCst); }) };
         if r.is_err() {
             emit(fd, &json!({"k": "infra", "what": "prefix registration failed"}));
+            return;
+        }
+    }
+    for u in &case.unchecked_prefix {
+        let s = [libc::SIGILL, libc::SIGFPE, libc::SIGSEGV][*u as usize % 3];
+        let r = unsafe { signal_hook_registry::register_signal_unchecked(s, || ()) };
+        if r.is_err() {
+            emit(fd, &json!({"k": "infra", "what": "unchecked prefix registration failed"}));
             return;
         }
     }
@@ -327,8 +340,11 @@ pub fn run_case(case: &C14Case) -> CaseReport {
     let entry = ENTRIES[case.entry as usize % 16];
     let exp = expect(case.entry % 16, case.n);
     let find = |k: &str| recs.iter().find(|r| r["k"] == k);
-    rep.hash = hash_of(&(case.entry, case.n, &case.prefix));
-    rep.nontrivial = exp != Expect::Ok && case.entry < 14 && !case.prefix.is_empty();
+    rep.hash = hash_of(&(case.entry, case.n, &case.prefix, &case.unchecked_prefix));
+    if !case.unchecked_prefix.is_empty() {
+        rep.class("after-unchecked-registration");
+    }
+    rep.nontrivial = exp != Expect::Ok && case.entry < 14 && (!case.prefix.is_empty() || !case.unchecked_prefix.is_empty());
     rep.class(match exp {
         Expect::Panic => "expect-panic",
         Expect::Err => "expect-err",
@@ -428,12 +444,24 @@ fn extra(def: &PropDef, args: &WorkerArgs, report: &mut WorkerReport) {
     for entry in 0..16u8 {
         for n in &nums {
             for p in &prefixes {
-                let case = C14Case { entry, n: *n, prefix: p.clone() };
+                let case = C14Case { entry, n: *n, prefix: p.clone(), unchecked_prefix: vec![] };
                 let rep = run_case(&case);
                 if let Some(v) = report.absorb(def, &rep, &known) {
                     report.violation = Some((v.key, v.msg, serde_json::to_value(&case).unwrap()));
                     return;
                 }
+            }
+        }
+    }
+    // every checked entry point x every forbidden-but-catchable signal after an unchecked
+    // registration of that very signal
+    for entry in 0..14u8 {
+        for (k, n) in [libc::SIGILL, libc::SIGFPE, libc::SIGSEGV].iter().enumerate() {
+            let case = C14Case { entry, n: *n, prefix: vec![0], unchecked_prefix: vec![k as u8] };
+            let rep = run_case(&case);
+            if let Some(v) = report.absorb(def, &rep, &known) {
+                report.violation = Some((v.key, v.msg, serde_json::to_value(&case).unwrap()));
+                return;
             }
         }
     }
